@@ -22,7 +22,7 @@ def outR : IOut → R
   | .oob => .panicked
   | .ub => .ub
 
-def quiet (n : Nat) : Ctx := ⟨n, none, fun _ => false, fun _ => none⟩
+def quiet (n : Nat) : Ctx := ⟨n, none, fun _ => false, fun _ => none, fun _ => .done, (0, none)⟩
 
 theorem panics_eq (ids : List Nat) (bad : Option Nat) : GA.Body.panics ids bad = GA.IterOwn.panics ids bad := by
   cases bad <;> rfl
@@ -31,7 +31,7 @@ open Lean.Parser.Tactic in
 /-- unfold the interpreter on a concrete body -/
 macro "body_simp" "[" ts:simpLemma,* "]" : tactic =>
   `(tactic| simp [runFn, runDropOn, exec, eval, loopOver, GA.BodyIter.ofIter, St.obj, St.putObj, O.get, O.put, natOf, boolOf,
-      resolve, idsOf, panics_eq, outR, $ts,*])
+      resolve, idsOf, dropEvs, panics_eq, outR, $ts,*])
 
 def resR : GA.IterOwn.NthRes → R
   | .item (some x) => .ret (.some (.elem x))
@@ -223,14 +223,14 @@ theorem exec_newOut (c : Ctx) (moved : Bool) (idx idxb : X) (k : S) (env : List 
     exec c (.newOut moved idx idxb k) env st =
       match natOf (eval c env st idx), natOf (eval c env st idxb) with
       | some i, some b =>
-        exec c k env { st with out := ⟨st.self.slots, i, b, 0⟩, hasOut := true, forgot := st.forgot || moved }
+        exec c k env { st with out := ⟨st.self.slots, i, b, 0, []⟩, hasOut := true, forgot := st.forgot || moved }
       | _, _ => ([], .ub, st) := by
   first | rfl | (simp only [exec]; rfl)
 theorem exec_drop (c : Ctx) (sl : X) (k : S) (env : List V) (st : St) :
     exec c (.drop sl k) env st = match eval c env st sl with
       | some (.slice o lo hi) =>
-        if GA.Body.panics (idsOf (st.obj o) lo hi) c.bad then ((idsOf (st.obj o) lo hi).map .drop, .panicked, st)
-        else ((idsOf (st.obj o) lo hi).map .drop ++ (exec c k env st).1, (exec c k env st).2)
+        if GA.Body.panics (idsOf (st.obj o) lo hi) c.bad then (dropEvs (st.obj o) lo hi, .panicked, st)
+        else (dropEvs (st.obj o) lo hi ++ (exec c k env st).1, (exec c k env st).2)
       | _ => ([], .ub, st) := by
   first | rfl | (simp only [exec]; rfl)
 
@@ -238,7 +238,7 @@ open Lean.Parser.Tactic in
 /-- like `body_simp`, but loops stay folded (`exec_foldS`, `exec_zipS`) -/
 macro "body_simp_l" "[" ts:simpLemma,* "]" : tactic =>
   `(tactic| simp [runFn, runDropOn, exec_foldS, exec_zipS, exec_done, exec_letv, exec_set, exec_forget, exec_newOut,
-      exec_drop, eval, GA.BodyIter.ofIter, St.obj, St.putObj, O.get, O.put, natOf, boolOf, resolve, idsOf, panics_eq, $ts,*])
+      exec_drop, eval, GA.BodyIter.ofIter, St.obj, St.putObj, O.get, O.put, natOf, boolOf, resolve, idsOf, dropEvs, panics_eq, $ts,*])
 
 /-- the closure calls of a fold over the elements `xs`, first call index `k`:
     events, whether every call returned, number of elements handed out -/
@@ -253,11 +253,11 @@ def callsSpec (fpan : Nat → Bool) : List Nat → Nat → List Ev × Bool × Na
 theorem fold_loop (c : Ctx) (slots : List Nat) (ib : Nat) (e0 e1 : V) (out : O) (ho fg : Bool) :
     ∀ (r i k : Nat), i + r ≤ slots.length → i + r < word →
       loopOver (loopBody c (loopBodyOf Gen.Body.fold.body) [e0, e1]) ((List.range' i r).map (V.slot .self))
-          ⟨⟨slots, i, ib, 0⟩, out, ho, k, fg⟩
+          ⟨⟨slots, i, ib, 0, []⟩, out, ho, k, fg, 0, false⟩
         = ((callsSpec c.fpan ((slots.drop i).take r) k).1,
            (if (callsSpec c.fpan ((slots.drop i).take r) k).2.1 then R.ret .unit else R.panicked),
-           ⟨⟨slots, i + (callsSpec c.fpan ((slots.drop i).take r) k).2.2, ib, 0⟩, out, ho,
-             k + (callsSpec c.fpan ((slots.drop i).take r) k).2.2, fg⟩) := by
+           ⟨⟨slots, i + (callsSpec c.fpan ((slots.drop i).take r) k).2.2, ib, 0, []⟩, out, ho,
+             k + (callsSpec c.fpan ((slots.drop i).take r) k).2.2, fg, 0, false⟩) := by
   intro r
   induction r with
   | zero => intro i k _ _; simp [loopOver, callsSpec]
@@ -294,7 +294,7 @@ theorem fold_body (it : Iter) (h : Inv it) (hw : it.slots.length < word) (c : Ct
     (r.1, r.2.1) = ((foldSpec c.fpan (abs it) 0).1,
       if (foldSpec c.fpan (abs it) 0).2 then R.ret .unit else R.panicked) := by
   obtain ⟨h1, h2⟩ := h
-  have hl := fold_loop c it.slots it.back (.nat it.back) (.slice .self it.front it.back) ⟨[], 0, 0, 0⟩ false false
+  have hl := fold_loop c it.slots it.back (.nat it.back) (.slice .self it.front it.back) ⟨[], 0, 0, 0, []⟩ false false
     (it.back - it.front) it.front 0 (by omega) (by omega)
   simp only [loopBodyOf, Gen.Body.fold] at hl
   have hle := callsSpec_le c.fpan ((it.slots.drop it.front).take (it.back - it.front)) 0
@@ -319,11 +319,11 @@ theorem take_succ_drop (l : List Nat) (i r : Nat) (h : i + r < l.length) :
 theorem rfold_loop (c : Ctx) (slots : List Nat) (fr : Nat) (e0 e1 : V) (out : O) (ho fg : Bool) (i : Nat) :
     ∀ (r k : Nat), i + r ≤ slots.length →
       loopOver (loopBody c (loopBodyOf Gen.Body.rfold.body) [e0, e1]) (((List.range' i r).map (V.slot .self)).reverse)
-          ⟨⟨slots, fr, i + r, 0⟩, out, ho, k, fg⟩
+          ⟨⟨slots, fr, i + r, 0, []⟩, out, ho, k, fg, 0, false⟩
         = ((callsSpec c.fpan ((slots.drop i).take r).reverse k).1,
            (if (callsSpec c.fpan ((slots.drop i).take r).reverse k).2.1 then R.ret .unit else R.panicked),
-           ⟨⟨slots, fr, i + r - (callsSpec c.fpan ((slots.drop i).take r).reverse k).2.2, 0⟩, out, ho,
-             k + (callsSpec c.fpan ((slots.drop i).take r).reverse k).2.2, fg⟩) := by
+           ⟨⟨slots, fr, i + r - (callsSpec c.fpan ((slots.drop i).take r).reverse k).2.2, 0, []⟩, out, ho,
+             k + (callsSpec c.fpan ((slots.drop i).take r).reverse k).2.2, fg, 0, false⟩) := by
   intro r
   induction r with
   | zero => intro k _; simp [loopOver, callsSpec]
@@ -354,7 +354,7 @@ theorem rfold_body (it : Iter) (h : Inv it) (c : Ctx) (hbad : c.bad = none) :
     (r.1, r.2.1) = ((rfoldSpec c.fpan (abs it).reverse 0).1,
       if (rfoldSpec c.fpan (abs it).reverse 0).2 then R.ret .unit else R.panicked) := by
   obtain ⟨h1, h2⟩ := h
-  have hl := rfold_loop c it.slots it.front (.nat it.front) (.slice .self it.front it.back) ⟨[], 0, 0, 0⟩ false false
+  have hl := rfold_loop c it.slots it.front (.nat it.front) (.slice .self it.front it.back) ⟨[], 0, 0, 0, []⟩ false false
     it.front (it.back - it.front) 0 (by omega)
   have e0 : it.front + (it.back - it.front) = it.back := by omega
   rw [e0] at hl
@@ -430,13 +430,13 @@ theorem setMany_eq (ys : List Nat) : ∀ (l : List Nat) (j : Nat), j + ys.length
 theorem clone_loop (c : Ctx) (self : O) (fg : Bool) :
     ∀ (r j i k : Nat) (outSlots : List Nat), i + r ≤ self.slots.length → j + r ≤ outSlots.length → j + r < word →
       loopOver (zipBody c (loopBodyOf Gen.Body.clone.body) []) (pairsFrom j i r)
-          ⟨self, ⟨outSlots, 0, j, 0⟩, true, k, fg⟩
+          ⟨self, ⟨outSlots, 0, j, 0, []⟩, true, k, fg, 0, false⟩
         = ((cloneCalls c.cl ((self.slots.drop i).take r) k).1,
            (if (cloneCalls c.cl ((self.slots.drop i).take r) k).2.1 then R.ret .unit else R.panicked),
            ⟨self, ⟨setMany outSlots j (cloneCalls c.cl ((self.slots.drop i).take r) k).2.2, 0,
-               j + (cloneCalls c.cl ((self.slots.drop i).take r) k).2.2.length, 0⟩, true,
+               j + (cloneCalls c.cl ((self.slots.drop i).take r) k).2.2.length, 0, []⟩, true,
              k + (cloneCalls c.cl ((self.slots.drop i).take r) k).2.2.length
-               + (if (cloneCalls c.cl ((self.slots.drop i).take r) k).2.1 then 0 else 1), fg⟩) := by
+               + (if (cloneCalls c.cl ((self.slots.drop i).take r) k).2.1 then 0 else 1), fg, 0, false⟩) := by
   intro r
   induction r with
   | zero => intro j i k o _ _ _; simp [pairsFrom, loopOver, cloneCalls, setMany]
@@ -476,12 +476,12 @@ theorem clone_body (it : Iter) (h : Inv it) (hw : it.slots.length < word) (c : C
     (r.1, r.2.1) = ((cloneSpec c.cl (abs it)).1,
         match (cloneSpec c.cl (abs it)).2 with | some _ => R.ret .obj | none => R.panicked)
     ∧ (∀ made, (cloneSpec c.cl (abs it)).2 = some made →
-        r.2.2.out = ⟨setMany it.slots 0 made, 0, made.length, 0⟩ ∧ toIter r.2.2 = it) := by
+        r.2.2.out = ⟨setMany it.slots 0 made, 0, made.length, 0, []⟩ ∧ toIter r.2.2 = it) := by
   obtain ⟨h1, h2⟩ := h
   have hz := zip_positions_eq it.slots.length (it.back - it.front) 0 it.front
   have hmin : min it.slots.length (it.back - it.front) = it.back - it.front := by omega
   rw [hmin] at hz
-  have hl := clone_loop c ⟨it.slots, it.front, it.back, 0⟩ false (it.back - it.front) 0 it.front 0 it.slots
+  have hl := clone_loop c ⟨it.slots, it.front, it.back, 0, []⟩ false (it.back - it.front) 0 it.front 0 it.slots
     (by simp; omega) (by omega) (by omega)
   simp only [loopBodyOf, Gen.Body.clone] at hl
   have hle := cloneCalls_len c.cl ((it.slots.drop it.front).take (it.back - it.front)) 0
@@ -533,14 +533,14 @@ theorem last_body (it : Iter) (h : Inv it) (c : Ctx) :
 /-- `into_iter`: the array moves into a fresh iterator with the whole range live -/
 theorem intoIter_body (l : List Nat) (c : Ctx) (hn : c.n = l.length) :
     let r := runFn c Gen.Body.dropIter.body Gen.Body.intoIter []
-      { self := ⟨l, 0, 0, 0⟩, out := ⟨[], 0, 0, 0⟩, hasOut := false, calls := 0, forgot := false }
+      { self := ⟨l, 0, 0, 0, []⟩, out := ⟨[], 0, 0, 0, []⟩, hasOut := false, calls := 0, forgot := false, polls := 0, outForgot := false }
     (r.1, r.2.1, toIter { r.2.2 with self := r.2.2.out }) = ([], R.ret .obj, Iter.ofList l) := by
   body_simp [Gen.Body.intoIter, GA.BodyIter.toIter, Iter.ofList, Gen.Iter.initFront, Gen.Iter.initBack, hn]
 
 /-! ### `src/internal.rs`: the three drop guards, `is_full`, `finish` -/
 
 def ofBuilder (slots : List Nat) (pos : Nat) : St :=
-  { self := ⟨slots, 0, 0, pos⟩, out := ⟨[], 0, 0, 0⟩, hasOut := false, calls := 0, forgot := false }
+  { self := ⟨slots, 0, 0, pos, []⟩, out := ⟨[], 0, 0, 0, []⟩, hasOut := false, calls := 0, forgot := false, polls := 0, outForgot := false }
 
 /-- `Drop for IntrusiveArrayBuilder` releases exactly `array[..position]` -/
 theorem intrusiveDrop_body (slots : List Nat) (pos : Nat) (h : pos ≤ slots.length) (c : Ctx) (hb : c.bad = none) :
